@@ -8,6 +8,8 @@
 import Gzx.Ref.QR
 import Gzx.Proofs.QRZigzag
 import Gzx.Proofs.QRPlacement
+import Gzx.Proofs.QRMatrix
+import Gzx.Proofs.QRCodewords
 import Gzx.Proofs.QRCount0
 import Gzx.Proofs.QRCount1
 import Gzx.Proofs.QRCount2
@@ -53,6 +55,41 @@ theorem std_remainder_bits :
         (if v + 1 = 1 then 0 else if v + 1 ≤ 6 then 7 else if v + 1 ≤ 13 then 0 else if v + 1 ≤ 20 then 3
          else if v + 1 ≤ 27 then 4 else if v + 1 ≤ 34 then 3 else 0) := by
   decide +kernel
+
+/-- `final_codewords_length`: for versions 1..40 the reference codeword sequence of a full set of
+    data codewords (split into the standard's blocks, Reed-Solomon parity per block, both
+    interleaved) has exactly the symbol's total number of codewords -/
+theorem final_codewords_length (v : Nat) (h1 : 1 ≤ v) (h40 : v ≤ 40) (ec : EC) (data : List Nat)
+    (hd : data.length = dataCodewords v ec) :
+    (finalCodewords v ec data).length = totalCodewords v := by
+  have h := std_blocks_sum (v - 1) (List.mem_range.mpr (by omega)) ec (by cases ec <;> decide)
+  have hv : v - 1 + 1 = v := by omega
+  rw [hv] at h
+  obtain ⟨_, _, _, hpos, hlen, hsum⟩ := h
+  unfold finalCodewords
+  simp only
+  have hsplit := splitBlocks_lengths (blockDataLengths v ec) data (by rw [hd, hsum])
+  rw [List.length_append, roundRobin_length _ _ (le_maxLen _), roundRobin_length _ _ (le_maxLen _)]
+  rw [sumLens_eq, hsplit, hsum]
+  rw [sumLens_const _ (ecPerBlock v ec) (by
+    intro b hb
+    obtain ⟨blk, _, rfl⟩ := List.mem_map.mp hb
+    exact rsParity_length _ _)]
+  have hnb : (splitBlocks (blockDataLengths v ec) data).length = numBlocks v ec := by
+    have := congrArg List.length hsplit
+    rw [List.length_map] at this
+    rw [this, hlen]
+  rw [List.length_map, hnb]
+  unfold dataCodewords at hpos ⊢
+  have hmul : numBlocks v ec * ecPerBlock v ec = ecPerBlock v ec * numBlocks v ec := Nat.mul_comm _ _
+  rw [hmul]
+  generalize ecPerBlock v ec * numBlocks v ec = p at hpos ⊢
+  generalize totalCodewords v = t at hpos ⊢
+  omega
+
+/-- `terminate_fills`: terminator, bit padding and pad codewords yield exactly the data capacity -/
+theorem terminate_fills (d : Nat) (bits : List Bool) (h : bits.length ≤ 8 * d) :
+    (terminate d bits).length = d := terminate_length d bits h
 
 /-! ### alignment centres -/
 
@@ -177,6 +214,14 @@ theorem place_spec (v : Nat) (ec : EC) (mask : Nat) (cw : List Nat)
           != maskBit mask ((zigzag v)[i]).1 ((zigzag v)[i]).2)) ∧
     (∀ x y, isFunction v x y = true → moduleAt v ec mask cw x y = functionModule v ec mask x y) :=
   ⟨fun i hi => moduleAt_data v ec mask cw hlen i hi, fun x y h => moduleAt_function v ec mask cw x y h⟩
+
+/-- `ref_matrix_is_spec`: the matrix the driver prints and the oracle compares with the library
+    (`refMatrix`, assembled through an array for speed) is, module for module, the functional
+    specification `moduleAt` that `place_spec` is about. -/
+theorem ref_matrix_is_spec (v : Nat) (ec : EC) (mask : Nat) (cw : List Nat) :
+    refMatrix v ec mask cw =
+      (List.range (dimension v)).map (fun y => (List.range (dimension v)).map (fun x => moduleAt v ec mask cw x y)) :=
+  refMatrix_eq_spec v ec mask cw
 
 /-! ### masks -/
 
